@@ -6,7 +6,8 @@
     the harness supplies structure-aware byte mutations of valid packets: truncation at every
     offset (followed by EOF), every type/flag nibble, remaining-length edge values (0, len+-1,
     127/128, 16383/16384, 2097151/2097152, 268435455, 5 bytes), inner length prefixes (0, len+-1,
-    0xFFFF), QoS 3, empty topic lists, identifier 0, and seeded random bytes.
+    0xFFFF), QoS 3, empty topic lists, identifier 0, well-formed packets with wildcard / odd topic
+    names and misplaced wildcards in filters, and seeded random bytes.
 (T) the brokers run in child processes of the check: a panic kills the process (exit status and
     panic trace are the observation).  After every hostile stream a pre-established witness pair
     does a QoS 1 round trip; BrokerTrace validates that only the offender's session ends, that the
@@ -118,6 +119,20 @@ def mutations(rng, thorough):
     out.append(("empty-body-connect", bytes([0x10, 0]), False))
     out.append(("connect-bad-protocol", frame(0x10, lp(b"MQIsdp") + bytes([4, 2, 0, 60]) + lp(b"x")), False))
     out.append(("connect-version-9", frame(0x10, lp(b"MQTT") + bytes([9, 2, 0, 60]) + lp(b"x")), False))
+    # well-formed packets that violate the protocol where it meets shared state: topic names with wildcards (retained or not),
+    # filters with misplaced wildcards, odd level structures, a retained will on a wildcard topic.  The names overlap with the
+    # witnesses' retained topics wit/r0..2 when read as patterns, but match none of the witnesses' (exact) filters.
+    for t in (b"wit/+", b"wit/#", b"#", b"+/+", b"wit/r0/#", b"+", b"/", b"//", b"wit//", b"$SYS/x", b"wit/" + b"a/" * 300 + b"z", b"w" * 40000):
+        for q, ret in ((0, True), (1, True), (1, False)):
+            body = lp(t) + (bytes([0, 11]) if q else b"") + b"hostile-semantic"
+            out.append(("publish-%s-topic-%s" % ("retained" if ret else "plain", t[:12].decode()), frame(0x30 | (q << 1) | (1 if ret else 0), body), False))
+    for f in (b"wit/#/x", b"wit/r+", b"#/#", b"wit/+/#/+", b"+wit", b"#"):
+        out.append(("subscribe-filter-%s" % f.decode(), frame(0x82, bytes([0, 9]) + lp(f) + bytes([1])), False))
+        out.append(("unsubscribe-filter-%s" % f.decode(), frame(0xa2, bytes([0, 9]) + lp(f)), False))
+    for q in (0, 1):
+        flags = 0x02 | 0x04 | (q << 3) | 0x20
+        out.append(("connect-retained-will-on-wildcard-topic-q%d" % q,
+                    frame(0x10, lp(b"MQTT") + bytes([4, flags, 0, 60]) + lp(b"hw%d" % q) + lp(b"wit/+") + lp(b"hostile-will")), True))
     for i in range(60 if not thorough else 600):
         n = rng.randint(1, 40)
         out.append(("random-%d" % i, bytes(rng.randrange(256) for _ in range(n)), rng.random() < 0.5))
@@ -141,13 +156,26 @@ def hostile_ops(c, pre_connect, stream):
 
 
 def witness_trip(k):
-    return [{"op": "pub", "c": 91, "t": ["wit"], "p": "w%d" % k, "q": 1, "id": 1 + k % 60000}]
+    ops = [{"op": "pub", "c": 91, "t": ["wit"], "p": "w%d" % k, "q": 1, "id": 1 + k % 60000}]
+    if k % 4 == 3:
+        # other clients "continue to publish and receive normally" also means: retained publishes are stored, a new client can
+        # connect, subscribe (retained replay), ping and leave
+        r = "r%d" % (k % 3)
+        c = 300 + k
+        ops += [{"op": "pub", "c": 91, "t": ["wit", r], "p": "ret%d" % k, "q": 1, "r": True, "id": 2 + k % 60000},
+                {"op": "connect", "c": c, "n": 1, "client": "wit-late%d" % k, "ka": 60000},
+                {"op": "sub", "c": c, "id": 1, "fs": [{"f": ["wit", r], "q": 1}]},
+                {"op": "send", "c": c, "kind": "PINGREQ"},
+                {"op": "send", "c": c, "kind": "DISCONNECT"}]
+    return ops
 
 
 def build(streams):
     ops = [{"op": "connect", "c": 90, "n": 1, "client": "wit-sub", "ka": 60000},
            {"op": "sub", "c": 90, "id": 1, "fs": [{"f": ["wit"], "q": 1}]},
-           {"op": "connect", "c": 91, "n": 1, "client": "wit-pub", "ka": 60000}]
+           {"op": "connect", "c": 91, "n": 1, "client": "wit-pub", "ka": 60000},
+           {"op": "pub", "c": 91, "t": ["wit", "r0"], "p": "ret-a", "q": 1, "r": True, "id": 60001},
+           {"op": "pub", "c": 91, "t": ["wit", "r1"], "p": "ret-b", "q": 1, "r": True, "id": 60002}]
     for i, (pre, stream) in enumerate(streams):
         ops += hostile_ops(100 + i, pre, stream)
         ops += witness_trip(i)
@@ -188,8 +216,14 @@ def check(run):
         streams.append((False, [("raw", m[0], m[1], m[2])]))
         streams.append((True, [("raw", m[0], m[1], m[2])]))
     if not thorough:
+        # the well-formed protocol violations are few and always run; the byte-level streams are sampled
+        def semantic(st):
+            return len(st[1]) == 1 and st[1][0][0] == "raw" and st[1][0][1].startswith(("publish-", "subscribe-filter", "unsubscribe-filter", "connect-retained-will"))
+        must = [st for st in streams if semantic(st)]
+        rest = [st for st in streams if not semantic(st)]
+        rng.shuffle(rest)
+        streams = rest[:max(0, 3200 - len(must))] + must
         rng.shuffle(streams)
-        streams = streams[:3200]
     per = 16
     scns = [build(streams[i:i + per]) for i in range(0, len(streams), per)]
     run.log("%d hostile streams in %d broker scenarios" % (len(streams), len(scns)))
@@ -207,7 +241,9 @@ def check(run):
         "distinct_nontrivial": len(streams),
         "rule": "stream = TLC-generated sequence of 3 inputs over 18 kinds (each MALFORMED realised by the next byte-level mutation) or a single "
                 "mutation before / after a valid CONNECT; %d mutations: truncations at every offset + EOF, first-byte values, remaining-length edge "
-                "values, inner length prefixes, QoS 3, empty lists, id 0, random bytes; 16 streams per broker scenario, a witness QoS 1 round trip after each"
+                "values, inner length prefixes, QoS 3, empty lists, id 0, wildcard / odd topic names (retained or not), misplaced wildcards in filters, a "
+                "retained will on a wildcard topic, random bytes; 16 streams per broker scenario, a witness QoS 1 round trip after each and, after every "
+                "fourth, a retained publish plus a new client that connects, subscribes (retained replay), pings and disconnects"
                 % len(muts),
         "broker_process_deaths": crashed, "events_validated": nev, "trace_spec_states": tstates, "rejections": len(rejected),
         "samples": [seqs[0], seqs[len(seqs) // 2], {"mutation": muts[0][0]}, {"mutation": muts[len(muts) // 2][0]}],
